@@ -14,6 +14,8 @@ import Pyiga.Proofs.SLP
 import Pyiga.Proofs.VFormPhys
 import Pyiga.Proofs.VFormPhys2
 import Pyiga.Proofs.VFormPhys3
+import Pyiga.Proofs.VFormPhys4
+import Pyiga.Proofs.VFormPhys5
 import Mathlib.Tactic.NormNum
 import Mathlib.Data.Matrix.Mul
 import Mathlib.Data.Matrix.Diagonal
@@ -424,6 +426,33 @@ example : ChainRuleEnv (fun _ x => x) chainRuleExampleEnv 1 [] (fun _ _ => 2) wh
     simp [chainRuleExampleEnv, unit2D, zerosD, bump]
 
 end NonVacuity
+
+/-- **jacinv_right_inverse_dim3**: the modelled `inv(Jac)` (cofactors · 1/det, as the library builds it) is a right inverse
+of `Jac` in dimension 3 wherever `det Jac ≠ 0` — with `jacinv_right_inverse` this covers all dimensions pyiga supports. -/
+theorem jacinv_right_inverse_dim3 {α : Type} [Field α] [CharZero α] (fn : String → α → α) (ρ : Env α) (dim : Nat)
+    (m k : Nat) (hm : m < 3) (hk : k < 3) (hdet : ev (fieldOps fn) ρ (detL 3 (varMat "Jac" dim 3 3)) 0 0 ≠ 0) :
+    ∑ r ∈ Finset.range 3, ρ.var "Jac" [m, r] (zerosD dim) false * ev (fieldOps fn) ρ (invL 3 (varMat "Jac" dim 3 3)) r k
+      = if m = k then 1 else 0 :=
+  jacInv3_right_inverse fn ρ dim m k hm hk hdet
+
+/-- **chain_rule_env_of_defs** (dims 1–3): `ChainRuleEnv`'s hypothesis on the derived variable `JacInv` is discharged by the
+modelled definitions — it suffices that the store holds the *definitions* of `Jac` (= parametric gradient of the geometry)
+and `JacInv` (= `inv(Jac)`), that `det Jac ≠ 0`, and the jet definitions `JetDefs` (chain-rule defining equations, flags,
+`_geo_hess_trf` definitions).  The Jacobian is read off the geometry jet: `J m i = ∂_{ξ_i} G_m`. -/
+theorem chain_rule_env_of_defs {α : Type} [Field α] [CharZero α] (fn : String → α → α) (ρ : Env α) (dim : Nat)
+    (hdim : dim = 1 ∨ dim = 2 ∨ dim = 3) (physIn : List String) (hS : JacStore fn ρ dim)
+    (hJ : JetDefs fn ρ dim physIn (fun m i => ρ.var "geo_a" [m] (unitD dim i) true)) :
+    ChainRuleEnv fn ρ dim physIn (fun m i => ρ.var "geo_a" [m] (unitD dim i) true) :=
+  chainRuleEnv_of_defs fn ρ dim hdim physIn hS hJ
+
+/-- **phys_to_para_sound_spacetime**: the pass on space-time forms (`replacePhysAllST`, tied by the `rphysST` stream) preserves
+every entry of every expression tree with well-formed multi-indices, for `d` space axes + time, under the explicit cylinder
+hypotheses bundled in `ChainRuleEnvST` (`∂_t G_x = 0`; pure time derivatives agree — `spacetime_time_derivs`). -/
+theorem phys_to_para_sound_spacetime {α : Type} [Field α] [CharZero α] (fn : String → α → α) (ρ : Env α) (d : Nat)
+    (physIn : List String) (J : Nat → Nat → α) (hE : ChainRuleEnvST fn ρ d J) (e : Expr)
+    (hwf : allLeaves (idxLenOK (d + 1)) e = true) (i j : Nat) :
+    ev (fieldOps fn) ρ (replacePhysAllST (d + 1) physIn e) i j = ev (fieldOps fn) ρ e i j :=
+  replacePhysAllST_sound fn ρ d physIn J hE e hwf i j
 
 /-- Full statement for the physical-derivative pass (kept as the one-line
 statement over *all* trees and the pass as a black box; every branch of the pass is now transliterated in
